@@ -61,7 +61,11 @@ RULE = ('joins: the C06 pair space (every pair of tables whose key vectors are A
         'over {None,i1,s1} (thorough K4) under 4 headers (plain, and with the key / a middle / the last field named '
         "'') x key selector as name, index 0/1, one-element tuple/list (compound: names, indices, mixed, reversed) x "
         'value selector as default, name, index 0/1/2, empty name, one-element tuple/list, pairs of names/indices/'
-        'mixed x all six functions x strict x dictionary= omitted / copy-on-read; '
+        'mixed x all six functions x strict x dictionary= omitted / copy-on-read; tables WITHOUT a row-identity column '
+        '(whole-row duplicates possible): every one-column key-only table <=4 rows (thorough 5) over K4, every '
+        'two-column table <=3 rows over {None,i1,s1} x {None,x,y}, every three-column table <=3 rows with a constant '
+        'middle field, with keys = one field / all fields / all fields reordered, x all six functions x strict '
+        '(DuplicateKeyError iff a KEY repeats, also when the repeating rows are equal); '
         'non-trivial: >=2 rows.  Excluded: unhashable keys (by the statement), tables without header row, '
         'ragged tables for the lookups and anti-joins (the documentation defines no result), presorted (no such '
         'argument).')
@@ -168,6 +172,21 @@ def selector_space(tier, seed):
             values = [None, h[2], 2, 0, 1, h[1], (h[2],), [2], (h[1], h[2]), (1, 2), (0, h[2])]
             for key in keys:
                 out.append(([h] + rows, key, values))
+    # tables WITHOUT a row-identity column, so that rows can be equal as a whole: one-column (key-only) tables,
+    # two- and three-column tables with repeated whole rows, keys covering every field.  "A key repeats" is about
+    # keys, not about rows differing: strict must raise for a duplicated record too, *one keeps the first
+    for kv in J.key_tuples(K4, 4 if tier == 'quick' else 5):
+        t = [('k',)] + [(k,) for k in kv]
+        for key in ('k', 0, ('k',)):
+            out.append((t, key, [None, 'k', 0, ('k',)]))
+    for kv in J.key_tuples(list(itertools.product(K3, [None, 'x', 'y'])), 3):
+        t = [('k', 'v')] + [tuple(c) for c in kv]
+        for key in ('k', ('k', 'v'), (1, 0), 'v'):
+            out.append((t, key, [None, 'v', ('k', 'v'), 'k']))
+    for kv in J.key_tuples(list(itertools.product([None, r['i1']], [None, 'x'])), 3):
+        t = [('k', 'id', 'v')] + [(c[0], 'c', c[1]) for c in kv]
+        for key in ('k', ('k', 'id', 'v'), ('k', 'v'), (2, 1, 0)):
+            out.append((t, key, [None, 'v', ('id', 'v')]))
     cells = list(itertools.product([None, r['i1']], repeat=2))
     for kv in J.key_tuples(cells, 2):
         rows = [(k[0], 'id%d' % i, k[1], 'v%d' % i) for i, k in enumerate(kv)]
